@@ -63,6 +63,19 @@ void hnd_get(coap_resource_t *, coap_session_t *session, const coap_pdu_t *, con
   coap_add_data(response, 2, (const uint8_t *)"ok");
 }
 
+void hnd_async(coap_resource_t *, coap_session_t *session, const coap_pdu_t *request, const coap_string_t *query, coap_pdu_t *response) {
+  Cb cb;
+  coap_async_t *async = coap_find_async(session, coap_pdu_get_token(request));
+  if (!async) {
+    unsigned long d = query && query->length ? (unsigned long)(query->s[0] - '0') : 1;
+    if (d < 1 || d > 9) d = 1;
+    if (!coap_register_async(session, request, COAP_TICKS_PER_SECOND * d)) coap_pdu_set_code(response, COAP_RESPONSE_CODE_SERVICE_UNAVAILABLE);
+    return;
+  }
+  coap_pdu_set_code(response, COAP_RESPONSE_CODE_CONTENT);
+  coap_add_data(response, 4, (const uint8_t *)"done");
+}
+
 coap_response_t resp_cb(coap_session_t *session, const coap_pdu_t *, const coap_pdu_t *rcv, const coap_mid_t) {
   Cb cb;
   Bytes tok = cx::tok_of(rcv);
@@ -95,7 +108,7 @@ struct C13 : Property {
   C13() {
     id = "C13";
     technique = "deterministic simulation of thread interleavings: real pthreads under a baton scheduler (only one runs; at every intercepted point - libcoap's pthread_mutex_lock/trylock/unlock through link-time wraps, blocking epoll_wait, every wrapped allocation and socket call, harness yields - the plan's PRNG picks who runs next; mutex ownership is modelled, simulated time advances only when no thread is runnable); oracle = lock discipline of every API call, no socket I/O outside a lock, deadlock detection, every request answered, all locks free at the end, sanitizers";
-    rule_text = "plan = 2..6 worker threads x 1..6 ops each (client session to the context's own endpoint with 1-5 requests CON/NON, optionally chained from inside the response handler; bursts of 9-14 sessions answered at once (more than one epoll batch); observe registration; coap_resource_notify_observers; resource add+delete; session reference/release) + one thread in coap_io_process(ctx, 100 ms) x pre-emption probability 0.1..0.9 x schedule seed; request, response, NACK and event handlers are registered and re-enter the API (reference/release, notify, send). Build configuration: the flavour ./check builds (CMake defaults of /repo's working tree). Non-trivial: at least 20 context switches and one contended lock; distinct = distinct schedule hash.";
+    rule_text = "plan = 2..6 worker threads x 1..6 ops each (client session to the context's own endpoint with 1-5 requests CON/NON, optionally chained from inside the response handler; bursts of 9-14 sessions answered at once (more than one epoll batch); observe registration; coap_resource_notify_observers; resource add+delete; cache entry create/lookup/delete; async (delayed) request; session reference/release) + one thread in coap_io_process(ctx, 100 ms) x pre-emption probability 0.1..0.9 x schedule seed; request, response, NACK and event handlers are registered and re-enter the API (reference/release, notify, send). Build configuration: the flavour ./check builds (CMake defaults of /repo's working tree). Non-trivial: at least 20 context switches and one contended lock; distinct = distinct schedule hash.";
     real_components = {"libcoap built by the repository's CMake defaults: coap_threadsafe.c global lock, every COAP_API wrapper (lock/unlock), callback release/re-entry logic (coap_lock_callback*), coap_io_process, session/resource/observe code under the lock; real pthreads and stacks"};
     stub_components = {"baton scheduler (choice of the running thread, modelled mutex ownership)", "simk clock/UDP/epoll"};
     assumptions = {"interleavings are explored at the granularity of the intercepted points, not of single instructions",
@@ -122,7 +135,9 @@ struct C13 : Property {
       int n = (int)r.range(1, 6);
       for (int k = 0; k < n; k++) {
         double x = (r.next() >> 11) * (1.0 / 9007199254740992.0);
-        if (x < 0.45) ops.push_back({{"op", "client"}, {"n", (int)r.range(1, 5)}, {"con", r.chance(0.6)}, {"chain", r.chance(0.3) ? (int)r.range(1, 3) : 0}});
+        if (x < 0.34) ops.push_back({{"op", "client"}, {"n", (int)r.range(1, 5)}, {"con", r.chance(0.6)}, {"chain", r.chance(0.3) ? (int)r.range(1, 3) : 0}});
+        else if (x < 0.40) ops.push_back({{"op", "cache"}});
+        else if (x < 0.44) ops.push_back({{"op", "async"}, {"delay_s", (int)r.range(1, 3)}});
         else if (x < 0.50) ops.push_back({{"op", "burst"}, {"n", (int)r.range(9, 14)}});     // many sockets readable in one epoll_wait (more than one batch of 10)
         else if (x < 0.57) ops.push_back({{"op", "observe"}});
         else if (x < 0.75) ops.push_back({{"op", "notify"}, {"times", (int)r.range(1, 4)}});
@@ -157,6 +172,9 @@ struct C13 : Property {
       coap_resource_t *r = coap_resource_init(coap_make_str_const("r"), 0);
       coap_register_request_handler(r, COAP_REQUEST_GET, hnd_get);
       coap_add_resource(cw.ctx, r);
+      coap_resource_t *ra = coap_resource_init(coap_make_str_const("a"), 0);
+      coap_register_request_handler(ra, COAP_REQUEST_GET, hnd_async);
+      coap_add_resource(cw.ctx, ra);
       coap_resource_t *o = coap_resource_init(coap_make_str_const("obs"), COAP_RESOURCE_FLAGS_NOTIFY_NON);
       coap_register_request_handler(o, COAP_REQUEST_GET, hnd_get);
       coap_resource_set_get_observable(o, 1);
@@ -261,6 +279,37 @@ struct C13 : Property {
             cw.chain_session[wi] = nullptr;
             { Api a("coap_session_reference"); coap_session_reference(s); }
             { Api a("coap_session_release"); coap_session_release(s); }
+            { Api a("coap_session_release"); coap_session_release(s); }
+          } else if (op == "cache" || op == "async") {
+            coap_session_t *s;
+            { Api a("coap_new_client_session"); s = coap_new_client_session(cw.ctx, nullptr, &dst, COAP_PROTO_UDP); }
+            if (!s) continue;
+            coap_pdu_t *p;
+            { Api a("coap_new_pdu"); p = coap_new_pdu(COAP_MESSAGE_CON, COAP_REQUEST_CODE_GET, s); }
+            if (p) {
+              uint8_t tk[4] = {0xC1, 0x30, (uint8_t)wi, (uint8_t)(seq++)};
+              coap_add_token(p, 4, tk);
+              if (op == "cache") {
+                std::string nm = "c" + std::to_string(wi) + "_" + std::to_string(seq);
+                coap_add_option(p, COAP_OPTION_URI_PATH, nm.size(), (const uint8_t *)nm.data());
+                coap_cache_entry_t *ce;
+                { Api a("coap_new_cache_entry"); ce = coap_new_cache_entry(s, p, COAP_CACHE_NOT_RECORD_PDU, COAP_CACHE_IS_SESSION_BASED, 0); }
+                tsched::yield("app");
+                coap_cache_entry_t *found;
+                { Api a("coap_cache_get_by_pdu"); found = coap_cache_get_by_pdu(s, p, COAP_CACHE_IS_SESSION_BASED); }
+                if (ce && found != ce) res.violate("T.cache_lookup", "entry_not_found", strfmt("worker %d: the cache entry it has just created for its own request is %s", wi, found ? "another one" : "not found"));
+                if (ce) { Api a("coap_delete_cache_entry"); coap_delete_cache_entry(cw.ctx, ce); }
+                coap_delete_pdu(p);
+              } else {
+                coap_add_option(p, COAP_OPTION_URI_PATH, 1, (const uint8_t *)"a");
+                std::string q = std::to_string(o.value("delay_s", 1));
+                coap_add_option(p, COAP_OPTION_URI_QUERY, q.size(), (const uint8_t *)q.data());
+                int want = cw.got[wi] + 1;
+                { Api a("coap_send"); coap_send(s, p); }
+                tsched::wait([&cw, wi, want]() { return cw.got[wi] >= want; }, 120000);
+                if (cw.got[wi] < want) { unanswered++; res.violate("T.request_unanswered", "async", strfmt("worker %d: the delayed (async) response did not arrive within 120 s of simulated time", wi)); }
+              }
+            }
             { Api a("coap_session_release"); coap_session_release(s); }
           } else if (op == "burst") {
             int n = o.value("n", 12);
